@@ -146,6 +146,24 @@ class Facts(Roles):
 _OPS = {ast.Add: "+=", ast.Sub: "-=", ast.Mult: "*=", ast.FloorDiv: "//=", ast.Mod: "%=", ast.BitAnd: "&=", ast.BitOr: "|="}
 
 
+def canon_loopvars(f, strings):
+    """rewrite the names bound by the for-loops of f (in order of appearance) to _v0, _v1, ... in the given fact strings, so that a
+    fact over a loop body does not depend on what the loop variables are called"""
+    import re as _r
+    names = []
+    for n in ast.walk(f.node):
+        if isinstance(n, ast.For):
+            for x in ast.walk(n.target):
+                if isinstance(x, ast.Name) and x.id not in names:
+                    names.append(x.id)
+    out = []
+    for t in strings:
+        for k, nm in enumerate(names):
+            t = _r.sub(r"(?<![A-Za-z0-9_.])%s(?![A-Za-z0-9_])" % _r.escape(nm), "_v%d" % k, t)
+        out.append(t)
+    return out
+
+
 def _tname(t: ast.AST) -> Optional[str]:
     d = dotted(t)
     if d:
